@@ -20,10 +20,12 @@ import z3
 
 import exec as ex
 import conc
+import replay as rp
 from runner import Inconclusive, nondet_inputs
 
 
-def run_cb(sess, spec, K=2, loop_bound=3, timeout_s=1800, max_paths=3000000, scenario=None, first_only=True):
+def run_cb(sess, spec, K=2, loop_bound=3, timeout_s=1800, max_paths=3000000, scenario=None, first_only=True,
+           flavor='rel', features=(), validate=True):
     scenario = scenario or (spec.get('name') + '@cb%d' % K)
     t0 = time.time()
     eng = sess.engine(loop_bound=loop_bound, max_paths=max_paths)
@@ -112,6 +114,12 @@ def run_cb(sess, spec, K=2, loop_bound=3, timeout_s=1800, max_paths=3000000, sce
                                thread=d['thread'], where=d['where'], schedule=d['schedule'], spec=spec, nondet=nd)
         v.trace = d['trace']
         violations.append(v)
+    tv_ok = 0
+    tv_problem = None
+    if validate and not violations and acc['sample'] and acc['sample'].get('log') is not None:
+        tv_ok, tv_problem = validate_sample(spec, scenario, acc['sample'], flavor, features)
+        if tv_problem:
+            acc['inconclusive'].append(tv_problem)
     covered = acc['covered']
     missing = [c for c in spec.get('covers', []) if c not in covered] if not violations else []
     return {'scenario': scenario, 'mode': 'M1c context-bounded (K=%d preemptions)' % K, 'violations': violations,
@@ -119,7 +127,8 @@ def run_cb(sess, spec, K=2, loop_bound=3, timeout_s=1800, max_paths=3000000, sce
             'obligations': acc['nob'], 'covered': sorted(covered), 'missing_covers': missing,
             'instrs': eng.stats['instrs'], 'queries': eng.nqueries + acc['queries'], 'solver_s': eng.solver_time,
             'explore_s': time.time() - t0, 'threads': nthreads, 'max_context_switches_seen': acc['max_sw'],
-            'sample': acc['sample'], 'engine': eng, 'events': 0, 'worker_processes': nproc}
+            'sample': {k: v for k, v in (acc['sample'] or {}).items() if k != 'log'} or None, 'engine': eng, 'events': 0,
+            'worker_processes': nproc, 'nontrivial': acc['paths'], 'traces_validated': tv_ok}
 
 
 _CTX = None
@@ -141,7 +150,7 @@ def merge_acc(a, b):
     a['max_sw'] = max(a['max_sw'], b['max_sw'])
     a['instrs'] += b['instrs']
     a['queries'] += b['queries']
-    if a['sample'] is None:
+    if b['sample'] is not None and (a['sample'] is None or b['sample']['switches'] > a['sample']['switches']):
         a['sample'] = b['sample']
 
 
@@ -198,8 +207,10 @@ def _dfs(eng, spec, scenario, final, work, deadline, first_only, acc, stop_at=No
         acc['max_sw'] = max(acc['max_sw'], s.cb_switches)
         for c in s.covers:
             acc['covered'].add(c)
-        if acc['sample'] is None and s.status == 'done':
-            acc['sample'] = {'scenario': scenario, 'one_explored_schedule_thread_ids': schedule_of(eng, s)[:80]}
+        if s.status == 'done' and (acc['sample'] is None or s.cb_switches > acc['sample']['switches']):
+            sched = schedule_of(eng, s)
+            acc['sample'] = {'scenario': scenario, 'switches': s.cb_switches, 'one_explored_schedule_thread_ids': sched[:80],
+                             'schedule': sched, 'log': event_log(eng, s)}
         for ob in s.oblig:
             acc['nob'] += 1
             if ob.kind == 'bound':
@@ -242,3 +253,73 @@ def schedule_of(eng, s):
     return [e.thread for e in s.events[:n] if e.thread != 0 and conc.gated(eng, e)]
 
 
+
+
+KIND = {'R': 'Load', 'W': 'Store'}
+RMW = {'xchg': 'Swap', 'add': 'Add', 'sub': 'Sub'}
+
+
+def event_log(eng, s):
+    """The gated atomic steps of the threads of a finished path as (thread, op, addr, read, written), or None when a
+    value is not concrete."""
+    out = []
+    n = getattr(s, 'n_thread_events', len(s.events))
+    for e in s.events[:n]:
+        if e.thread == 0 or not conc.gated(eng, e):
+            continue
+        fr0 = next((f for f in eng.loc(e.ins).split(' <- ') if not f.startswith('library/core/src/sync/atomic.rs')), '')
+        if not fr0.startswith('src/'):
+            continue        # harness cells pass the gate but are not traced natively
+        if e.kind in ('R', 'W'):
+            k = KIND[e.kind]
+        elif e.kind == 'U':
+            k = RMW.get(e.info[0] if isinstance(e.info, tuple) else e.info, 'Rmw')
+        else:
+            k = 'Cas'
+        r = e.rval if e.kind != 'W' else None
+        w = e.wval if e.kind in ('W', 'U') else (e.wval if (e.kind == 'C' and e.succ == 1) else None)
+        for x in (e.addr, r, w):
+            if x is not None and not isinstance(x, int):
+                return None
+        out.append((e.thread, k, e.addr, r, w))
+    return out
+
+
+def validate_sample(spec, scenario, sample, flavor, features):
+    """Translator validation for the concurrent mode: the explored schedule with the most context switches is run
+    against the natively compiled crate (hooks ON, threads gated by that schedule); the native trace of atomic
+    operations must equal the engine's, thread by thread and step by step, modulo a renaming of addresses."""
+    import re
+    import tv
+    path = os.path.join(rp.REPLAY_DIR, 'tvcb_%s.replay' % scenario.replace('@', '_'))
+    rp.write_replay(path, 'conc', [b for (_, b) in spec['threads']], schedule=sample['schedule'], setup=spec.get('setup'),
+                    final=spec.get('final'), comment='translator validation of %s' % scenario, flavor=flavor, features=features)
+    with open(path, 'a') as f:
+        for i, (pre, _) in enumerate(spec['threads']):
+            if pre:
+                f.write('pre %d %s\n' % (i + 1, pre))
+    res = rp.run_native(path, trace=True)
+    if not res['done'] or res['stuck'] or res['assert_fails'] or res['panics']:
+        return 0, 'cb translator validation: native run of an explored schedule of %s did not complete cleanly: %s' % (
+            scenario, (res['out'] or '')[-300:])
+    nat = []
+    for m in re.finditer(r'^TRACE t=(-?\d+) (\w+) addr=(0x[0-9a-f]+) read=(0x[0-9a-f]+) written=(0x[0-9a-f]+)', res['out'], re.M):
+        t, op, addr, rd, wr = m.groups()
+        t = int(t)
+        if t < 1:
+            continue
+        rd, wr = int(rd, 16), int(wr, 16)
+        nat.append((t, op, int(addr, 16), None if op == 'Store' else rd, None if wr == 0xffffffffffffffff else wr))
+    eng_log = sample['log']
+    ce = tv.canon([(k, a, r, w) for (_, k, a, r, w) in eng_log])
+    cn = tv.canon([(k, a, r, w) for (_, k, a, r, w) in nat])
+    te = [t for (t, _, _, _, _) in eng_log]
+    tn = [t for (t, _, _, _, _) in nat]
+    n = len(ce)
+    if len(cn) < n or len(cn) > n + 12:
+        return 0, 'cb translator validation: %s: engine logged %d gated steps, native %d' % (scenario, n, len(cn))
+    for i in range(n):
+        if ce[i] != cn[i] or te[i] != tn[i]:
+            return 0, 'cb translator validation: %s: step %d differs: engine t%d %s, native t%d %s' % (
+                scenario, i, te[i], ce[i], tn[i], cn[i])
+    return 1, None
